@@ -377,8 +377,11 @@ fn c16_merge(lists: &[AttrList]) -> Merged {
             m.mentioned.insert(a.key.clone());
         }
         if l.serde {
-            if l.attrs.iter().all(|a| a.well_formed) {
-                for a in &l.attrs {
+            // every entry of a serde list stands for itself: an unknown key, or a known key in a
+            // form ts-rs cannot read, is skipped up to the next comma and leaves its neighbours
+            // in force (C10)
+            for a in &l.attrs {
+                if a.well_formed {
                     m.serde_clean.insert(a.key.clone());
                 }
             }
